@@ -91,6 +91,7 @@ func NewEnv(dir string, in CfgIn, objs ...client.Object) *Env {
 		DefaultDirVarRun:         filepath.Join(dir, "run"),
 		AnnPrefix:                []string{"haproxy-ingress.github.io", "ingress.kubernetes.io"},
 		ElectionNamespace:        "ingress-controller",
+		ConfigMapName:            GlobalConfigMap,
 		BackendShards:            0,
 	}
 	ctx := context.Background()
@@ -106,6 +107,14 @@ func NewEnv(dir string, in CfgIn, objs ...client.Object) *Env {
 }
 
 // ---- object builders ----
+
+// GlobalConfigMap is the namespace/name of the global ConfigMap (--configmap).
+const GlobalConfigMap = "ingress-controller/haproxy-ingress"
+
+// ConfigMap builds the global ConfigMap with the given data.
+func ConfigMap(data map[string]string) *api.ConfigMap {
+	return &api.ConfigMap{ObjectMeta: metav1.ObjectMeta{Namespace: "ingress-controller", Name: "haproxy-ingress"}, Data: data}
+}
 
 // ClassAnn is the class annotation key.
 const ClassAnn = "kubernetes.io/ingress.class"
